@@ -73,6 +73,8 @@ def run(tier, seed):
         variants.append(["compartment order", TR.permute_comps(base, perm)])
         variants.append(["strata order", TR.permute_strata(base, rng)])
         variants.append(["rename", TR.rename(base, lambda s: s == "age")])
+        if sum(1 for o in base["ops"] if o["op"] == "strat" and o["kind"] != "age") >= 2:
+            variants.append(["rename (stratum labels shared between stratifications)", TR.rename_shared_labels(base, lambda s: s == "age")])
         ind = independent_strats(base)
         if ind:
             q = copy.deepcopy(base)
